@@ -1,7 +1,7 @@
 (* C02 -- closed-system conservation of elements and charge in reaction steps: the theorems.
    Statements only; proofs are in IPV.C02.*.  Gen_C02_Step is regenerated from step.cpp on every run. *)
 From Coq Require Import QArith Qabs String List Bool ZArith.
-From IPV.C02 Require Import Inv Model AssembleProofs StepProofs StepTable Checker AccIR GenProofs.
+From IPV.C02 Require Import Inv Model AssembleProofs StepProofs SaverProofs StepTable Checker AccIR GenProofs.
 From IPV.Gen Require Import Gen_C02_Step.
 Import ListNotations.
 Local Open Scope string_scope.
@@ -39,6 +39,26 @@ Theorem step_conserves : forall (eps : elt -> Q) u amt x pp' ss' r kb,
     <= eps e.
 Proof. exact StepProofs.step_conserves. Qed.
 Print Assumptions step_conserves.
+
+(* saver / xexchange_save / xsurface_save / xgas_save / xpp_assemblage_save / xss_assemblage_save partition the
+   solver's result back into the entity maps without creating or losing anything *)
+Theorem saver_inventory : forall u pp' ss' r,
+  res_wf u r -> inv_ents (saver u pp' ss' None r) = inv_result u pp' ss' r.
+Proof. exact SaverProofs.saver_inventory. Qed.
+Print Assumptions saver_inventory.
+
+(* the same with the solver's guarantee stated on its raw result (species sums per entity, phase moles) *)
+Theorem step_conserves_raw : forall (eps : elt -> Q) u amt x pp' ss' r kb,
+  assemble u amt = Ok x pp' ss' ->
+  u_kinetics u = kin_after kb ->
+  res_wf u r ->
+  (forall e, Qabs (get e (inv_result u pp' ss' r) - get e (flat x ++ oinv inv_pp pp' ++ oinv inv_pas ss')) <= eps e) ->
+  forall e,
+    Qabs (get e (inv_ents (saver u pp' ss' (kin_after kb) r)) -
+          (get e (inv_use u) + get e (inv_kin_before kb) + amt * get e (oinv reaction_calc (u_reaction u))))
+    <= eps e.
+Proof. exact SaverProofs.step_conserves_raw. Qed.
+Print Assumptions step_conserves_raw.
 
 (* Chains of SAVE/USE steps of any length: the error grows at most linearly *)
 Theorem steps_conserve : forall eps b l fin,
